@@ -1,8 +1,11 @@
 ---- MODULE MCMb2 ----
 (* Small scope for C10 (DESIGN 4.8).                                                               *)
-(*  order family : every sequence of <= MaxTags tags over a menu of 15 representative tags (all      *)
+(*  order family : every sequence of <= MaxTags tags over a menu of 16 representative tags (all      *)
 (*                 four decoded kinds twice with different payloads = duplicates in either order,    *)
-(*                 unknown tags with payload sizes giving every padding 0..7)                        *)
+(*                 unknown tags with payload sizes giving every padding 0..7; the empty-payload      *)
+(*                 corner cases - ELF tag without sections, memory map without entries, empty        *)
+(*                 command line, minimal framebuffer tag - so that each also occurs LAST, flush       *)
+(*                 against the inaccessible page behind the end tag)                                 *)
 (*  mmap family  : entry sizes 24/32/40, <= MaxEnt entries, every type of {0..6, 2^31, 2^32-1}        *)
 (*  cmd family   : every command line over {'a', '=', ' ', TAB} up to CmdLen characters              *)
 (*  elf family   : <= MaxSec sections, empty / non-empty, every name offset, string table anywhere    *)
@@ -33,18 +36,18 @@ StrTab == <<0, 46, 97, 0, 98, 99, 0>>
 Sec(ni, fl, j, sz) == [ni |-> ni, fl |-> fl, ad |-> AddrOf(j), sz |-> sz]
 StrSec == [ni |-> 4, fl |-> <<0, 0>>, ad |-> Z4, sz |-> W(7)]        \* ad is filled in by the encoder (host address)
 PlainSecs(j) == { Sec(ni, fl, j, sz) : ni \in {0, 1, 2, 4}, fl \in {<<0, 6>>, <<65535, 3>>}, sz \in {Z4, <<1, 0, 0, 0>>} }
-Elf(shndx, secs) == [k |-> "elf", shndx |-> shndx, secs |-> secs, strtab |-> StrTab]
+Elf(shndx, secs) == [k |-> "elf", shndx |-> shndx, secs |-> secs, strtab |-> IF secs = <<>> THEN <<>> ELSE StrTab]
 ElfSeeds(maxSec) ==
-  {<<Elf(0, <<StrSec>>)>>}
+  {<<Elf(0, <<StrSec>>)>>, <<Elf(0, <<>>)>>}
   \cup (IF maxSec >= 2 THEN { <<Elf(0, <<StrSec, s>>)>> : s \in PlainSecs(2) } \cup { <<Elf(1, <<s, StrSec>>)>> : s \in PlainSecs(1) } ELSE {})
   \cup (IF maxSec >= 3 THEN { <<Elf(1, <<s, StrSec, t>>)>> : s \in PlainSecs(1), t \in PlainSecs(3) }
                             \cup { <<Elf(2, <<s, t, StrSec>>)>> : s \in PlainSecs(1), t \in PlainSecs(2) } ELSE {})
 
 Other(ty, n) == [k |-> "other", ty |-> ty, len |-> n]
-MCOrderMenu == { Cmd(<<97, 61, 97>>), Cmd(<<97>>),
-                 Mmap(24, <<<<0, 1>>>>), Mmap(32, <<<<0, 5>>, <<0, 3>>>>),
+MCOrderMenu == { Cmd(<<97, 61, 97>>), Cmd(<<>>),
+                 Mmap(24, <<<<0, 1>>>>), Mmap(32, <<>>),
                  Fb(1, 32, <<16, 8, 8, 8, 0, 8>>), Fb(2, 16, <<>>),
-                 Elf(0, <<StrSec, Sec(1, <<0, 6>>, 2, W(4096))>>), Elf(0, <<StrSec>>),
-                 Other(2, 1), Other(21, 3), Other(4, 8), Other(10, 7), Other(3, 5), Other(7, 0), Other(262, 4) }
+                 Elf(0, <<StrSec, Sec(1, <<0, 6>>, 2, W(4096))>>), Elf(0, <<StrSec>>), Elf(0, <<>>),
+                 Other(2, 2), Other(21, 3), Other(4, 8), Other(10, 7), Other(3, 5), Other(7, 0), Other(262, 4) }
 MCSeeds == MmapSeeds(MaxEnt) \cup CmdSeeds(CmdLen) \cup FbSeeds \cup ElfSeeds(MaxSec)
 ====
